@@ -32,7 +32,11 @@ LeafCases == <<
   << [k |-> "leaf", h |-> 1, sh |-> <<4>>, v |-> <<Q(1), Q(-2), Q(3), Q(2)>>, const |-> FALSE],
      [k |-> "leaf", h |-> 2, sh |-> <<>>, v |-> <<Q(3)>>, const |-> FALSE] >>,
   << [k |-> "leaf", h |-> 1, sh |-> <<2, 1>>, v |-> <<Q(2), Q(-3)>>, const |-> FALSE],
-     [k |-> "leaf", h |-> 2, sh |-> <<1, 2>>, v |-> <<Q(-1), Q(2)>>, const |-> FALSE] >>
+     [k |-> "leaf", h |-> 2, sh |-> <<1, 2>>, v |-> <<Q(-1), Q(2)>>, const |-> FALSE] >>,
+  \* Fortran-ordered bases: reshape / ravel through a transpose are views here
+  << [k |-> "leaf", h |-> 1, sh |-> <<2, 3>>, v |-> <<Q(1), Q(-2), Q(3), Q(2), Q(-1), Q(4)>>, const |-> FALSE, order |-> "F"] >>,
+  << [k |-> "leaf", h |-> 1, sh |-> <<2, 2>>, v |-> <<Q(1), Q(-2), Q(3), Q(2)>>, const |-> FALSE, order |-> "F"],
+     [k |-> "leaf", h |-> 2, sh |-> <<2>>, v |-> <<Q(-1), Q(2)>>, const |-> FALSE] >>
 >>
 
 \* index expressions tried on a tensor of shape sh
